@@ -7,7 +7,7 @@ wake-count: bulk wake-ups are bounded by the free slots; stream-resume: a parked
 stored in streaming_waiter only under write back-pressure, is signalled when it lifts and dropped on
 teardown; control-order: the back-pressure flag is updated before the application control service
 is awaited; baton: a woken-but-cancelled sender must hand the wake-up on (the parked object needs a
-Drop that re-runs the wake loop). Eventual completion (fairness, waker delivery) is not decided. every-opening-wakes (continued): wait_readiness parks a sender only on {window full, write back-pressure} - the conditions whose lifting wakes senders.
+Drop that re-runs the wake loop). Eventual completion (fairness, waker delivery) is not decided. every-opening-wakes (continued): wait_readiness parks a sender only on {window full, write back-pressure} - the conditions whose lifting wakes senders. wake-count (continued): a parked sender is woken only inside a function that itself opens the window; control-order (continued): every back-pressure state change of Dispatcher::poll is followed on every way out by the matching Control::wr notification.
 """
 import re
 from facts import *
